@@ -11,6 +11,7 @@ CONSTANTS
   FlagHeldThroughDbWrite = TRUE
   RootHashBeforeCommit = TRUE
   PrevEpochChecked = FALSE
+  ReadersSeePendingEpoch = FALSE
   ExportSched = FALSE
 VIEW View
 INIT MCInit
